@@ -131,10 +131,10 @@ def exec_case(case, built=None):
     for i in range(T):
         if np.any(np.isneginf(np.asarray(st_.get_history("logl", index=i), dtype=float))):
             raise Violation(f"history batch {i} contains log-likelihood -inf", sig={"kind": "neginf-stored"})
-        if case["mode"] == "blobs2":
-            xb, bb = np.asarray(st_.get_history("x", index=i)), np.asarray(st_.get_history("blobs", index=i), dtype=float)
+        if case["mode"] in ("blobs2", "blobs_auto", "blobs_str"):
+            xb, bb = np.asarray(st_.get_history("x", index=i)), st_.get_history("blobs", index=i)
             for k in range(len(xb)):
-                if not np.array_equal(bb[k].ravel(), np.array(t.blob_vec(xb[k]))):
+                if not t.blob_match(xb[k], bb[k]):
                     raise Violation(f"history batch {i}, particle {k}: the stored blobs are not the blobs of the stored point: auxiliary data of "
                                     "a replaced zero-likelihood draw was kept", sig={"kind": "excluded-draw-blob-stored"})
         if case["mode"] == "blobs":
